@@ -246,6 +246,10 @@ fn term_history(i: usize, cfg: &Cfg, log: &mut Log) {
       match *op {
         Op::Index(y, raw) => {
           let k = Terms::idx(y, 0) as i64 + raw;
+          // stay inside the table and in years >= 1 (as the stepping checks of (b) do)
+          if k < 24 || k >= t.v.len() as i64 {
+            continue;
+          }
           let st = SolarTerm::from_index(y as isize, raw as isize);
           judge_term(&st, k, &mut out);
           if raw < 0 || raw > 23 {
@@ -263,6 +267,10 @@ fn term_history(i: usize, cfg: &Cfg, log: &mut Log) {
         }
         Op::Step(s) => {
           if let Some((st, k)) = last.take() {
+            if k + s < 24 || k + s >= t.v.len() as i64 {
+              last = Some((st, k));
+              continue;
+            }
             let nx = st.next(s as isize);
             judge_term(&nx, k + s, &mut out);
             last = Some((nx, k + s));
